@@ -14,6 +14,7 @@ import (
 	"errors"
 	"fmt"
 	"io"
+	"os"
 	"strings"
 	"testing"
 
@@ -131,6 +132,26 @@ type Case struct {
 	Payload hx.Hex // encoded signature database
 	Var     int    // 0 PK 1 KEK 2 db 3 dbx
 	Ident   int
+	FSConf  int // how the variable layer is configured: 0 as NewFS gives it, 1 CheckImmutable, 2 CheckImmutable and UnsetImmutable
+}
+
+// newFS is efivarfs.NewFS with the configuration of the case. The immutable-flag handling looks at the host's own
+// efivars directory (not at the injected file system), so it is switched on only where the host has none.
+func newFS(conf int) *efivarfs.EFIFS {
+	fs := efivarfs.NewFS()
+	if conf == 0 {
+		return fs
+	}
+	if _, err := os.Stat(attributes.Efivars); err == nil {
+		hx.Class("fs_configuration_skipped_host_has_efivars")
+		return fs
+	}
+	hx.Class(fmt.Sprintf("fs_configuration_%d", conf))
+	fs = fs.CheckImmutable()
+	if conf == 2 {
+		fs = fs.UnsetImmutable()
+	}
+	return fs
 }
 
 var sbVars = []efivar.Efivar{efivar.PK, efivar.KEK, efivar.Db, efivar.Dbx}
@@ -163,7 +184,8 @@ func genCase(t *rapid.T) Case {
 		}
 		keep = []esl.List{l}
 	}
-	return Case{Img: gen.PEImage(o).Draw(t, "img"), Payload: esl.Encode(keep), Var: rapid.IntRange(0, 3).Draw(t, "var"), Ident: rapid.IntRange(0, 3).Draw(t, "ident")}
+	return Case{Img: gen.PEImage(o).Draw(t, "img"), Payload: esl.Encode(keep), Var: rapid.IntRange(0, 3).Draw(t, "var"), Ident: rapid.IntRange(0, 3).Draw(t, "ident"),
+		FSConf: rapid.SampledFrom([]int{0, 0, 1, 2, 2}).Draw(t, "fsconf")}
 }
 
 type tally struct {
@@ -494,12 +516,12 @@ func checkCase(c Case) error {
 	}
 	fsops := []fsop{
 		{"WriteVar", true, func(rec *recfs.FS) (bool, error) {
-			fs := efivarfs.NewFS()
+			fs := newFS(c.FSConf)
 			fs.SetFS(rec)
 			return true, fs.WriteVar(v, &db)
 		}},
 		{"WriteSignedUpdate", true, func(rec *recfs.FS) (bool, error) {
-			fs := efivarfs.NewFS()
+			fs := newFS(c.FSConf)
 			fs.SetFS(rec)
 			return true, fs.Open().WriteSignedUpdate(v, &db, key, id.Cert)
 		}},
@@ -510,7 +532,7 @@ func checkCase(c Case) error {
 			return true, attributes.WriteEfivarsWithGuid(v.Name, v.Attributes, c.Payload, *v.GUID)
 		}},
 		{"GetVar", false, func(rec *recfs.FS) (bool, error) {
-			fs := efivarfs.NewFS()
+			fs := newFS(c.FSConf)
 			fs.SetFS(rec)
 			var got signature.SignatureDatabase
 			err := fs.GetVar(v, &got)
@@ -519,14 +541,14 @@ func checkCase(c Case) error {
 		{"GetVar (undecoded value)", false, func(rec *recfs.FS) (bool, error) {
 			// the same read with a receiver that takes the bytes as they are: a value cut short is a wrong value
 			// even where a decoder would have stumbled over the cut
-			fs := efivarfs.NewFS()
+			fs := newFS(c.FSConf)
 			fs.SetFS(rec)
 			var got rawValue
 			err := fs.GetVar(v, &got)
 			return err != nil || bytes.Equal(got, c.Payload), err
 		}},
 		{"typed getter", false, func(rec *recfs.FS) (bool, error) {
-			fs := efivarfs.NewFS()
+			fs := newFS(c.FSConf)
 			fs.SetFS(rec)
 			e := fs.Open()
 			var got *signature.SignatureDatabase
